@@ -48,6 +48,7 @@ type symEval struct {
 	impl  map[types.Object]*implBinding
 	over  map[types.Object]string // temporary term overrides (refinement idiom, inlined parameters)
 	depth int
+	ret   types.Object // pseudo-variable that collects the function's return expressions
 }
 
 type implBinding struct {
@@ -57,6 +58,7 @@ type implBinding struct {
 
 func newSymEval(c *Ctx, p *packages.Package, fd *ast.FuncDecl, side string) *symEval {
 	se := &symEval{c: c, info: p.TypesInfo, fd: fd, side: side, defs: map[types.Object][]symDef{}, impl: map[types.Object]*implBinding{}, over: map[types.Object]string{}}
+	se.ret = types.NewVar(token.NoPos, nil, "$ret", types.Typ[types.Invalid])
 	info := p.TypesInfo
 	if fd.Recv != nil && len(fd.Recv.List) == 1 && len(fd.Recv.List[0].Names) == 1 {
 		se.recv = info.Defs[fd.Recv.List[0].Names[0]]
@@ -121,6 +123,10 @@ func newSymEval(c *Ctx, p *packages.Package, fd *ast.FuncDecl, side string) *sym
 					}
 				}
 				return false
+			case *ast.ReturnStmt:
+				if len(m.Results) >= 1 {
+					se.defs[se.ret] = append(se.defs[se.ret], symDef{m.Results[0], cl, sw, curIf, m.Pos()})
+				}
 			case *ast.AssignStmt:
 				for i, l := range m.Lhs {
 					var rhs ast.Expr
@@ -195,7 +201,21 @@ func (se *symEval) termOfDefs(ds []symDef, name string) string {
 			ks = append(ks, shortTypeName(typeKey(se.info.TypeOf(e))))
 		}
 		sort.Strings(ks)
-		arms = append(arms, strings.Join(ks, "|")+"→"+se.term(d.expr))
+		at := se.term(d.expr)
+		// an arm that switches again on the same operand (a helper inlined into the arm)
+		// is reduced to the inner arm of its own kind
+		if pre := "Case(" + se.term(operand) + "){"; strings.HasPrefix(at, pre) && strings.HasSuffix(at, "}") && len(ks) == 1 {
+			for _, inner := range splitTopLevel(at[len(pre):len(at)-1], "; ") {
+				if i := strings.Index(inner, "→"); i > 0 {
+					for _, k := range strings.Split(inner[:i], "|") {
+						if k == ks[0] {
+							at = inner[i+len("→"):]
+						}
+					}
+				}
+			}
+		}
+		arms = append(arms, strings.Join(ks, "|")+"→"+at)
 	}
 	sort.Strings(arms)
 	return "Case(" + se.term(operand) + "){" + strings.Join(arms, "; ") + "}"
@@ -247,6 +267,50 @@ func (se *symEval) refine(d0, d1 symDef) (string, bool) {
 
 // inlineHelper renders a small helper `if v, ok := p.(*T); cond { return e1 }; return e2` with its arguments substituted.
 func (se *symEval) inlineHelper(callee *types.Func, args []string) (string, bool) {
+	if t, ok := se.inlineHelperShapes(callee, args); ok {
+		return t, true
+	}
+	// general form: the helper's result is what its return statements yield — one
+	// unconditional return, or one return per arm of a type switch (arms that panic yield nothing)
+	fd := se.c.funcDecl(callee)
+	if fd == nil || fd.Body == nil || se.depth > 30 {
+		return "", false
+	}
+	// helpers that iterate (the gep walks) stay opaque: both sides name the same helper
+	loops := false
+	ast.Inspect(fd.Body, func(n ast.Node) bool {
+		switch n.(type) {
+		case *ast.ForStmt, *ast.RangeStmt:
+			loops = true
+		}
+		return true
+	})
+	if loops {
+		return "", false
+	}
+	p := se.c.declPkg[fd]
+	sub := newSymEval(se.c, p, fd, se.side)
+	sub.depth = se.depth + 1
+	i := 0
+	for _, f := range fd.Type.Params.List {
+		for _, n := range f.Names {
+			if i < len(args) {
+				if obj := p.TypesInfo.Defs[n]; obj != nil {
+					sub.over[obj] = args[i]
+				}
+			}
+			i++
+		}
+	}
+	sub.old = nil
+	t := sub.termOfDefs(sub.defs[sub.ret], "$ret")
+	if strings.Contains(t, "?multi:") || strings.Contains(t, "?undefined:") {
+		return "", false
+	}
+	return t, true
+}
+
+func (se *symEval) inlineHelperShapes(callee *types.Func, args []string) (string, bool) {
 	fd := se.c.funcDecl(callee)
 	if fd == nil || fd.Body == nil || len(fd.Body.List) == 0 || len(fd.Body.List) > 3 {
 		return "", false
@@ -863,4 +927,24 @@ func (c *Ctx) helperSiblings() []Obligation {
 		}
 	}
 	return obs
+}
+
+// splitTopLevel splits s at occurrences of sep that are not nested in (), {} or [].
+func splitTopLevel(s, sep string) []string {
+	var out []string
+	depth, start := 0, 0
+	for i := 0; i < len(s); i++ {
+		switch s[i] {
+		case '(', '{', '[':
+			depth++
+		case ')', '}', ']':
+			depth--
+		}
+		if depth == 0 && strings.HasPrefix(s[i:], sep) {
+			out = append(out, s[start:i])
+			start = i + len(sep)
+			i += len(sep) - 1
+		}
+	}
+	return append(out, s[start:])
 }
